@@ -182,7 +182,7 @@ def run_parent(args):
     scratch = os.path.join("/dev/shm" if os.path.isdir("/dev/shm") else VERIF, "verif-%d" % os.getpid())
     os.makedirs(scratch, exist_ok=True)
     t0 = time.time()
-    limit = getattr(mod, "TIME_LIMIT", {"quick": 900, "thorough": 7200})[args.tier]
+    limit = getattr(mod, "TIME_LIMIT", {"quick": int(os.environ.get("VERIF_QUICK_LIMIT", "900")), "thorough": 7200})[args.tier]
     try:
         procs = []
         for i in range(n):
